@@ -308,7 +308,9 @@ static void run_case(Rng &r)
                 size_t guard = 0;
                 bool ok = true;
                 while(it.i < v.size() && ip.i < plain.size() && guard++ < 100) {
+                    // a fresh scratch slot for every element (the caller owes the iterator nothing between calls)
                     av_t b1, b2;
+                    memset(&b1, 0xA5, sizeof b1); memset(&b2, 0x5A, sizeof b2);
                     const av_t *x = rtosc_arg_val_itr_get(&it, &b1), *y = rtosc_arg_val_itr_get(&ip, &b2);
                     count("iterated_values");
                     if(x->type != y->type || (x->type != 'a' && !same_scalar(*x, *y))) { ok = false; break; }
@@ -377,6 +379,28 @@ static void run_singles(Rng &r)
         std::string d = "a={" + render_flat(va) + "} b={" + render_flat(vb) + "}";
         if(sgn(c) != rs) fail("documented_order", pair_tags(va, vb), d, std::to_string(c), fmt("sign %d", rs));
         if((c == 0) != (e != 0)) fail("cmp_eq_agree", pair_tags(va, vb), d, fmt("cmp=%d eq=%d", c, e), "cmp==0 exactly when eq");
+    }
+    // with a tolerance option: whatever the tolerance, "cmp returns 0 exactly when eq reports equal", and the order is antisymmetric
+    if(t == 'f' || t == 'd') {
+        static const double TOL[] = {0.1, 0.3, 0.01, 0.5, 0.25, 1e-3, 0.7, 2.0, 0.0};
+        rtosc_cmp_options opt; opt.float_tolerance = TOL[r.below(9)];
+        std::vector<av_t> p2;
+        // values exactly one tolerance apart, as the type represents it, and one ulp to either side of that
+        for(int i = 0; i < 6; ++i) {
+            av_t a = mk(t), b = mk(t), c = mk(t), e = mk(t);
+            double base = (double)r.range(-4, 4) * (r.chance(0.5) ? 0.1 : 0.25);
+            if(t == 'f') { a.val.f = (float)base; b.val.f = a.val.f + (float)opt.float_tolerance; c.val.f = nextafterf(b.val.f, INFINITY); e.val.f = nextafterf(b.val.f, -INFINITY); }
+            else { a.val.d = base; b.val.d = a.val.d + opt.float_tolerance; c.val.d = nextafter(b.val.d, INFINITY); e.val.d = nextafter(b.val.d, -INFINITY); }
+            p2.push_back(a); p2.push_back(b); p2.push_back(c); p2.push_back(e);
+        }
+        for(auto &a : p2) for(auto &b : p2) {
+            int c = rtosc_arg_vals_cmp(&a, &b, 1, 1, &opt), c2 = rtosc_arg_vals_cmp(&b, &a, 1, 1, &opt), e = rtosc_arg_vals_eq(&a, &b, 1, 1, &opt);
+            count("pairs.with_tolerance");
+            std::vector<av_t> va{a}, vb{b};
+            std::string d = fmt("tolerance %g: a={", opt.float_tolerance) + render_flat(va) + "} b={" + render_flat(vb) + "}";
+            if((c == 0) != (e != 0)) { fail("cmp_eq_agree", {"with_tolerance"}, d, fmt("cmp=%d eq=%d", c, e), "cmp==0 exactly when eq"); break; }
+            if(sgn(c) != -sgn(c2)) { fail("antisymmetry", {"with_tolerance"}, d, fmt("cmp(a,b)=%d cmp(b,a)=%d", c, c2), "opposite signs"); break; }
+        }
     }
     distinct(hash_str(desc, r.next() & 0xff));
 }
